@@ -194,7 +194,8 @@ def run(prop, theorems, tier, replay=None, extra_gen=None, known_classifier=None
                     violations.append((tagv, what, c, t))
         if ok_model:
             terms, flags = sl.conf_terms(cases, obs)
-            terms = [t.replace("conf_case ", "conf_case_k %s [%s] %s " % (kinds_term(kinds), ";".join(str(x) for x in mk), "true" if cl else "false"), 1)
+            kargs = "%s [%s] %s " % (kinds_term(kinds), ";".join(str(x) for x in mk), "true" if cl else "false")
+            terms = [(t.replace("conf_case_x ", "conf_case_kx " + kargs, 1) if t.startswith("conf_case_x ") else t.replace("conf_case ", "conf_case_k " + kargs, 1))
                      if t != "false" else t for t in terms]
             bad, cout = coq_eval(sl.PRELUDE, terms, kind="bool", tag=tag + "c")
             if bad is None:
